@@ -962,13 +962,13 @@ of an Insert in `shift_left` is the only place where a carried index can matter)
 theorem cleanup_sim (E : Env) (r1 r2 : Bool) (ops1 ops2 : List Op) (w : World) (h : LR ops1 ops2) :
     Sim PR (cleanupDiffOps E r1 ops1 w) (cleanupDiffOps E r2 ops2 w) := by
   simp only [cleanupDiffOps, opsWeight_LR h]
-  rcases cleanupPass_sim E r1 r2 .delete (2 * opsWeight ops2 + 4) (2 * opsWeight ops2 + 4) ops1 ops2 0 w h with ha | hb | ⟨e, ha, hb⟩ | ⟨⟨x1, w1⟩, ⟨x2, w2⟩, ha, hb, hR, hw⟩
+  rcases cleanupPass_sim E r1 r2 .delete (2 * opsWeight ops2 + 4) ((opsWeight ops2 + 2) * (opsWeight ops2 + 2)) ops1 ops2 0 w h with ha | hb | ⟨e, ha, hb⟩ | ⟨⟨x1, w1⟩, ⟨x2, w2⟩, ha, hb, hR, hw⟩
   · simp only [ha]; exact Sim.panicL
   · simp only [hb]; exact Sim.panicR
   · simp only [ha, hb]; exact Sim.err e
   · simp only [ha, hb]
     simp only at hw; subst hw
-    exact cleanupPass_sim E r1 r2 .insert (2 * opsWeight ops2 + 4) (2 * opsWeight ops2 + 4) x1 x2 0 w1 hR
+    exact cleanupPass_sim E r1 r2 .insert (2 * opsWeight ops2 + 4) ((opsWeight ops2 + 2) * (opsWeight ops2 + 2)) x1 x2 0 w1 hR
 
 /-- **(C)** The repair switch only touches carried indices: on the same input the shipped and the
 repaired clean-up agree up to carried indices (results and worlds; same abort), unless one of them panics. -/
